@@ -140,6 +140,8 @@ def script(spec):
     sid = schema.emit(decls, L, [0])
     L.append('init 0 %d %d' % (sid, fl))
     L.append('init 1 %d %d' % (sid, fl))
+    L.append('add_searchpath 0 %s' % hx('.'))       # the search path is context state that every section instance refers to
+    L.append('add_searchpath 0 %s' % hx('/nonexistent/dir'))
     L.append('note first')          # the declarations must serve a second cfg_init exactly as they served the first
     L.append('dump 0')
     L.append('print 0')
@@ -181,6 +183,12 @@ def script(spec):
             L.append('set_print_func 0 %s 1' % hx(path))
             L.append('note sib-other')
             L.append('dumpsec 0 %s' % hx(d.name + '=sibB'))
+        # instance A is replaced (same title parsed again): B and the context's own state must not move
+        L.append('note sib-step')
+        L.append('parse_buf 0 %s' % hx('%s sibA { }\n' % d.name))
+        L.append('note sib-other')
+        L.append('dumpsec 0 %s' % hx(d.name + '=sibB'))
+        L.append('searchpath 0 %s' % hx('no-such-file.conf'))
         if d.flags & F_KEYSTRVAL:
             L.append('note sib-step')
             L.append('parse_buf 0 %s' % hx('%s sibA { fresh_key = "1" }\n' % d.name))
